@@ -445,6 +445,8 @@ class Routine(TimeThread, Stream):
             if self.state == self.State.Init\
             or self.state == self.state.Paused:
                 self.state = self.State.Suspended
+                if self._still_parked(clock):
+                    return
                 clock = clock or _libsc3.main.current_tt._clock
                 clock.play(self, quant)
         # Pattern.play return the stream, maybe for API usage constency
@@ -586,8 +588,20 @@ class Routine(TimeThread, Stream):
         with self._state_lock:
             if self.state == self.State.Paused:
                 self.state = self.State.Suspended
+                if self._still_parked(clock):
+                    return
                 clock = clock or self._clock
                 clock.play(self, quant)
+
+    def _still_parked(self, clock):
+        # A routine paused while it waits on a Condition (or FlowVar) goes on
+        # waiting when it is resumed: signal() / unhang() re-schedule it, not
+        # the resume, or it would go on before the condition holds.
+        if getattr(self, '_parked_on', None) is None:
+            return False
+        if clock is not None:
+            self._clock = clock
+        return True
 
     def stop(self):
         '''Stop the routine and remove it from the clock if it is playing.
@@ -709,7 +723,9 @@ class Condition():
             raise Exception(
                 f'{type(self).__name__}.wait() called outside a routine')
         if not self.test:
-            self._waiting_threads.append(current_tt.thread_player)
+            player = current_tt.thread_player
+            self._waiting_threads.append(player)
+            player._parked_on = self  # Until released, see Routine.resume.
             yield 'hang'  # Arbitrary non numeric value.
         else:
             yield 0
@@ -767,6 +783,7 @@ class Condition():
         self._waiting_threads = []
         error = None
         for tt in tmp_wtt:
+            tt._parked_on = None
             try:
                 tt._clock.sched(0, tt)
             except Exception as e:
